@@ -336,7 +336,8 @@ def install(run):
             r = None
             with np.errstate(all="ignore"):
                 xa = np.array(x, dtype=float) if x_in_abs_coords else None
-                obj = float(np.dot(rvec, rvec)) + (run.P["hval"](run.to_user(xa)) if xa is not None else 0.0)
+                # h is evaluated where the code evaluates it: at the un-scaled point WITHOUT the final clip (ranks are compared exactly)
+                obj = float(np.dot(rvec, rvec)) + (run.P["hval"](run.to_user_noclip(xa)) if xa is not None else 0.0)
             try:
                 r = saved["C_Model"].save_point(self, x, rvec, nsamples, eval_num, x_in_abs_coords)
                 return r
